@@ -129,8 +129,31 @@ def run(tier):
                      'PlanStep.__eq__', 'QueryPlan.__eq__/add_step', 'Result.__eq__/__hash__']
     run.assumptions = ['one node kind per step (children are leaf markers); nested kinds follow by induction since deepcopy recurses uniformly',
                        'trees that went through the planner (extra attributes) are covered by the attribute-set comparison on builder instances only']
-    ch_obligations(run, path, specs, cond_to=150 if tier == 'quick' else 900, path_to=30)
+    ch_obligations(run, path, specs, cond_to=400 if tier == 'quick' else 1200, path_to=30)
     run.extra['node_classes'] = sorted(set(c for n, c in classes))
+    # ---- parsed-tree family (concrete, stated): every distinct tree the parsers build for the grammar-derived sentences
+    import concurrent.futures as cf, re
+    from engines.common import NCPU
+    from harness import c18lib
+    dialects = ('mindsdb', 'mysql', 'sqlite')
+    stride = 4 if tier == 'quick' else 1          # quick: every 4th mindsdb tree (all mysql / sqlite trees)
+    jobs = []
+    for d in dialects:
+        n = NCPU * (stride if d == 'mindsdb' else 1)
+        jobs += [(d, k, n) for k in range(NCPU)]
+    with cf.ProcessPoolExecutor(max_workers=NCPU) as ex:
+        res = list(ex.map(c18lib.parsed_shard, jobs))
+    for d in dialects:
+        cnt = sum(r[1] for r in res if r[0] == d)
+        total = max(r[2] for r in res if r[0] == d)
+        bad = [b for r in res if r[0] == d for b in r[3]]
+        run.validated += cnt
+        for sql, cls, pr in bad:
+            sym = re.sub(r'\d+', 'N', pr[0])[:80]
+            run.counterexample('parsed-copy:%s:%s' % (cls, sym), '%s: copy of the tree parsed from %r: %s' % (d, sql[:120], pr[0]),
+                               {'dialect': d, 'sql': sql, 'class': cls, 'problems': pr}, True)
+        run.ob('parsed-trees:%s' % d, 'counterexample' if bad else 'discharged', '%d of %d distinct parsed trees copied with copy() and deepcopy, every single-attribute mutation of the copy tried' % (cnt, total))
+    run.assumptions.append('parsed-tree family is concrete execution over trees parsed from grammar-derived sentences (production pairs); quick tier takes every 4th mindsdb tree')
     run.finish()
 
 
